@@ -23,17 +23,29 @@ Binding (mode A), two layers:
       succeed iff the spec's handshake completes (d = a), and then Connection::remote_id() must be
       d on the dialer and c on the acceptor.
 
+Growth: specs/identity/TlsSession.tla models several dials of one endpoint with rustls' session cache
+(resumed handshakes skip the certificate check; the cache is bucketed by the id-derived server name);
+TLC proves SessionAuth / BucketsPartitioned, refutes the constant-server-name variant, and a seeded
+selection of its behaviours (attack-shaped first: authenticated dial, then another id at the same
+endpoint) is replayed on one real dialer endpoint (`vh_ident c01s`).
+Binding self-test (every run): ~60 verifier expectations and 3 e2e expectations are flipped and the
+comparison must object to every one.
+
 Readings (DESIGN §13): case variants of a name (upper-case label, .IROH.INVALID) are DNS-equivalent
 spellings: decoding them to the key or refusing them are both allowed ("either"); a name that is not
 a presentable ServerName at all counts as rejected; verifier error *kinds* are not compared.
 A timeout of an honest dial is an environment problem (exit 2); any other failure of an honest
 dial is reported, because the statement's second sentence needs established connections.
 
-Mutation self-tests done while building (each gave VIOLATION; undo -> exit 0):
-  * verify_server_cert without the SPKI comparison -> verifier layer: offers <<Enc(k1), Spki(k2)>>
-    accepted; e2e: dialing k1 at the endpoint holding k2 connects;
-  * name::decode accepting any suffix (`[label, ..]`) -> name::decode / verify_server_cert accept
-    the wrongTld / wrongMid forms.
+Mutation self-tests done while building (each gave VIOLATION and exit 1, the unmutated tree exit 0;
+run in a private copy of /repo + /verif under /var/tmp/ident-mut, see checks/c02.py for why):
+  * verify_server_cert comparing only the length of the SPKI -> verifier layer: offers <<Enc(k1), any
+    44-byte blob / Spki(k2)>> accepted (VIOLATION what=verify_server_cert); the e2e layer, run on that
+    build, connected all six (dial d at the holder of a != d) cases with remote_id() = a;
+  * name::decode accepting any suffix (`[label, "iroh", ..]`) -> name::decode accepts the trailingDot /
+    wrongTld forms (VIOLATION what=name::decode);
+  * verify_client_cert tolerating one intermediate -> server-side offers with inter = 1 accepted
+    (VIOLATION what=verify_client_cert).
 """
 import json
 
@@ -78,8 +90,8 @@ def judge_verifier(ctx, cases, n, tag):
         nontrivial = c["cert_ok"] or c["sig_ok"] or o_["ee"] == "spki" or o_["form"] in ("enc", "encUpper", "upperSuffix")
         ctx.count(okey(c), nontrivial=nontrivial, n=o["runs"])
         for f in o["fails"]:
-            if f["what"].startswith("encode(id)") or f["what"] == "panic" and "harness" in f["got"]:
-                pass
+            if f["what"].startswith("harness-assumption"):
+                raise ToolError("harness could not concretise %s: %s" % (json.dumps(okey(c)), f["got"]))
             ctx.report({"layer": "verifier", "side": c["side"], "what": f["what"], "form": o_["form"], "ee": o_["ee"],
                         "signer": "own" if o_["signer"] == o_["ekey"] else o_["signer"], "scheme": o_["scheme"],
                         "exp": f["exp"] if len(f["exp"]) < 24 else "value"},
@@ -160,11 +172,136 @@ def e2e_cases(replays, again):
     return out
 
 
+def judge_sessions(ctx, behaviours, tag):
+    """Behaviours of TlsSession.tla (several dials of one endpoint, session cache in play) on real endpoints."""
+    inp = ctx.write_ndjson("c01s-%s.in" % tag, behaviours)
+    outp = ctx.path("c01s-%s.out" % tag)
+    ctx.run_bin("vh_ident", ["c01s", "--in", inp, "--out", outp], timeout=1800)
+    obs = ctx.read_ndjson(outp)
+    if len(obs) != len(behaviours):
+        raise ToolError("session harness returned %d observations for %d behaviours" % (len(obs), len(behaviours)))
+    for b, o in zip(behaviours, obs):
+        if o.get("env_error"):
+            raise ToolError("e2e environment problem: %s" % o["env_error"])
+        word = [[d["dial"], d["at"]] for d in b["dials"]]
+        ctx.count({"sessions": word}, nontrivial=True)
+        rep = {"layer": "sessions", "case": b}
+        for i, (d, got) in enumerate(zip(b["dials"], o["dials"])):
+            desc = "dial %d of %s (id %s at the endpoint holding %s)" % (i + 1, word, d["dial"], d["at"])
+            if d["ok"] and not got["ok"]:
+                if got["error"] == "timeout":
+                    raise ToolError("e2e: honest dial timed out: %s" % desc)
+                ctx.report({"layer": "sessions", "kind": "honest_dial_failed"}, "%s: spec connects, got %s" % (desc, got["error"]), rep)
+            elif not d["ok"] and got["ok"]:
+                ctx.report({"layer": "sessions", "kind": "connected_to_wrong_key", "after_honest": any(x["ok"] for x in b["dials"][:i])},
+                           "%s: the spec refuses (the peer does not hold %s) but connect succeeded with remote_id() = %s"
+                           % (desc, d["dial"], got["remote"]), rep)
+            elif d["ok"] and got["remote"] != d["remote"]:
+                ctx.report({"layer": "sessions", "kind": "client_remote_id"}, "%s: remote_id() is %s, spec says %s"
+                           % (desc, got["remote"], d["remote"]), rep)
+            elif d["ok"] and got["server_remote"] != "dialer":
+                ctx.report({"layer": "sessions", "kind": "server_remote_id"}, "%s: acceptor reports %s, not the dialer's key"
+                           % (desc, got["server_remote"] or "nothing"), rep)
+        ctx.sample({"sessions": word, "expected_ok": [d["ok"] for d in b["dials"]], "got_ok": [g["ok"] for g in o["dials"]],
+                    "remote": [g["remote"] for g in o["dials"]], "ms": o["elapsed_ms"]}, limit=8)
+
+
+def pick_sessions(ctx, behaviours, k):
+    """Prefer the attack shape: an authenticated dial, then another id at the same endpoint."""
+    import random
+
+    def attack(b):
+        ds = b["dials"]
+        return any(ds[i]["ok"] and ds[j]["at"] == ds[i]["at"] and ds[j]["dial"] != ds[i]["dial"]
+                   for i in range(len(ds)) for j in range(i + 1, len(ds)))
+
+    def again(b):
+        ds = b["dials"]
+        return any(ds[i]["ok"] and ds[j]["ok"] and ds[j]["dial"] == ds[i]["dial"] for i in range(len(ds)) for j in range(i + 1, len(ds)))
+    behaviours.sort(key=lambda b: json.dumps(b, sort_keys=True))
+    rnd = random.Random(ctx.seed)
+    a = [b for b in behaviours if attack(b)]
+    r = [b for b in behaviours if again(b) and not attack(b)]
+    rest = [b for b in behaviours if not attack(b) and not again(b)]
+    for lst in (a, r, rest):
+        rnd.shuffle(lst)
+    out = a[:max(1, k // 2)] + r[:max(1, k // 4)]
+    out += rest[:max(0, k - len(out))]
+    for i, b in enumerate(out):
+        b["idx"] = i
+    return out
+
+
+def binding_selftest(ctx, cases, e2e):
+    """Flip one expectation per layer: the harness-side comparison must object to every flipped case."""
+    flipped = []
+    seen = set()
+    for c in cases:
+        o = c["o"]
+        tag = (c["side"], o["form"], o["ee"], c["cert_ok"], c["sig_ok"])
+        if tag in seen or len(flipped) >= 60 or len(c["decode"]) > 1:
+            continue
+        seen.add(tag)
+        f = dict(c)
+        if len(flipped) % 2 == 0:
+            f["cert_ok"] = not c["cert_ok"]
+        else:
+            f["sig_ok"] = not c["sig_ok"]
+        f["honest"] = False
+        flipped.append(f)
+    # names: a decodable name whose allowed set no longer contains its id
+    for c in cases:
+        if c["side"] == "client" and c["o"]["form"] == "enc" and c["o"]["ee"] == "empty" and c["o"]["signer"] == "none" \
+                and c["o"]["inter"] == 0 and c["o"]["scheme"] == "other":
+            flipped.append(dict(c, decode=["none"]))
+    inp = ctx.write_ndjson("c01v-selftest.in", flipped)
+    outp = ctx.path("c01v-selftest.out")
+    ctx.run_bin("vh_ident", ["c01v", "--in", inp, "--out", outp, "--n", 2])
+    obs = ctx.read_ndjson(outp)
+    missed = [okey(c) for c, o in zip(flipped, obs) if o["ok"]]
+    if len(obs) != len(flipped) or missed:
+        raise ToolError("binding self-test: %d flipped verifier expectations were not detected, e.g. %s" % (len(missed), missed[:3]))
+    # e2e: the judge must object when the expectation of one honest and one dishonest dial is turned around
+    probe = Probe(ctx)
+    yes = next(c for c in e2e if c["connects"])
+    no = next(c for c in e2e if not c["connects"])
+    for c in (dict(yes, connects=False), dict(no, connects=True, client_remote=no["dial"]), dict(yes, client_remote="k?")):
+        c = dict(c, again=False)
+        before = len(probe.violations)
+        judge_e2e(probe, [c], "selftest")
+        if len(probe.violations) == before:
+            raise ToolError("binding self-test: flipped e2e expectation not detected: %s" % c)
+    ctx.log("binding self-test: %d flipped verifier expectations and 3 flipped e2e expectations, all detected" % len(flipped))
+    ctx.cov["binding_selftest_flips_detected"] = len(flipped) + 3
+
+
+class Probe:
+    """A ctx look-alike for the self-test: runs the harness through the real ctx, keeps reports to itself."""
+
+    def __init__(self, ctx):
+        self._ctx = ctx
+        self.violations = []
+
+    def __getattr__(self, name):
+        return getattr(self._ctx, name)
+
+    def report(self, sig, what, replay_obj):
+        self.violations.append((sig, what))
+
+    def count(self, *a, **k):
+        pass
+
+    def sample(self, *a, **k):
+        pass
+
+
 def run(ctx):
     if ctx.replay:
         rep = json.load(open(ctx.replay))["replay"]
         if rep["layer"] == "verifier":
             judge_verifier(ctx, [rep["case"]], rep["n"], "replay")
+        elif rep["layer"] == "sessions":
+            judge_sessions(ctx, [rep["case"]], "replay")
         else:
             judge_e2e(ctx, [rep["case"]], "replay")
         return
@@ -198,9 +335,20 @@ def run(ctx):
     seeds = [ctx.seed] if ctx.quick else [ctx.seed, ctx.seed + 1, ctx.seed + 2]
     for s in seeds:
         judge_e2e(ctx, e2e, "s%d" % s, seed=s)
+    binding_selftest(ctx, cases, e2e)
+    # 5. growth: several dials of one endpoint with the TLS session cache in play (TlsSession.tla)
+    dials = ctx.pick(3, 4)
+    sres = ctx.tlc("identity", "TlsSession", mode="gen", constants={"MaxDials": dials, "NamePerId": "TRUE"},
+                   require_actions=["Dial"], timeout=900)
+    ctx.tlc("identity", "TlsSession", cfg="TlsSession_refute.cfg", mode="mc", workers=1, constants={"MaxDials": dials},
+            coverage=False, expect_violation="SessionAuth", timeout=600)
+    picked = pick_sessions(ctx, sres.replays, ctx.pick(6, 60))
+    judge_sessions(ctx, picked, "all")
+    ctx.cov["session_behaviours"] = {"generated_by_tlc": len(sres.replays), "replayed_e2e": len(picked)}
     ctx.cov["rule"] = ("every offer of TlsAuth.tla (name form x end-entity class x intermediates 0..%d x signer x scheme, both sides; "
                        "enumerated exhaustively by TLC), each concretised %d times at the verifier layer; every (dialer, dialed id, "
-                       "held key) triple over 3 keys end to end; an offer is non-trivial when a check accepts, the end entity is a "
+                       "held key) triple over 3 keys end to end; a seeded selection of the TlsSession behaviours (attack-shaped ones first) on one "
+                       "real dialer endpoint; an offer is non-trivial when a check accepts, the end entity is a "
                        "well-formed SPKI or the name is a spelling of an encoded id" % (inter, n))
     ctx.cov["exhaustive"] = True
     ctx.cov["e2e_cases"] = len(e2e) * len(seeds)
